@@ -159,7 +159,7 @@ PROPS["C07"] = dict(
             dict(pkg="./index", entry="VerifC07", bounds="m=1,dim=2,grid=7,modes=2", reach=["searched"]),
             dict(pkg="./index", entry="VerifC07", bounds="m=2,maxlevel=0,modes=4,maxk=2,maxef=5", reach=["searched"]),
             dict(pkg="./index", entry="VerifC07", bounds="m=2,maxlevel=1,modes=1,maxk=3,maxef=4", reach=["searched"]),
-            dict(pkg="./index", entry="VerifC07", bounds="m=2,maxlevel=0,modes=4,maxk=2,maxef=5,defaults=1", reach=["searched"]),
+            dict(pkg="./index", entry="VerifC07", bounds="m=2,maxlevel=0,modes=2,maxk=2,maxef=4,defaults=1", max_seconds=3000, reach=["searched"]),
             dict(pkg="./index", entry="VerifC07", bounds="m=2,maxlevel=1,modes=2,maxk=2,maxef=4,defaults=2", reach=["searched"]),
         ],
     },
@@ -175,6 +175,8 @@ PROPS["C04"] = dict(
         "quick": [
             # a replica that applied a prefix, was removed from the partition and added again in the same process replays the whole log
             dict(pkg="./storage", entry="VerifC04", bounds="ops=3,kinds=3,ids=1,reload=1", reach=["end", "reloaded"]),
+            # the partition object was snapshotted before (periodic compaction): the later snapshot must still describe the later state
+            dict(pkg="./storage", entry="VerifC04", bounds="ops=3,metashapes=1,kinds=3,ids=1,maxlevel=0,earlysnap=1", reach=["end"]),
             dict(pkg="./storage", entry="VerifC04", bounds="ops=3,metashapes=1,kinds=3,ids=3,maxlevel=0", reach=["end"]),
             dict(pkg="./storage", entry="VerifC04", bounds="ops=3,metashapes=2,kinds=3,ids=2,maxlevel=0", reach=["end"]),
             dict(pkg="./storage", entry="VerifC04", bounds="ops=1,metashapes=2,kinds=6,maporder=1,ids=2,maxlevel=1", reach=["end"]),
@@ -182,6 +184,7 @@ PROPS["C04"] = dict(
         ],
         "thorough": [
             dict(pkg="./storage", entry="VerifC04", bounds="ops=4,metashapes=2,kinds=3,ids=2,maxlevel=0", reach=["end"]),
+            dict(pkg="./storage", entry="VerifC04", bounds="ops=4,metashapes=1,kinds=3,ids=2,maxlevel=0,earlysnap=1", reach=["end"]),
             dict(pkg="./storage", entry="VerifC04", bounds="ops=3,metashapes=2,kinds=3,ids=3,maxlevel=1", reach=["end"]),
             dict(pkg="./storage", entry="VerifC04", bounds="ops=2,metashapes=2,kinds=6,maporder=1,ids=2,maxlevel=1", reach=["end"]),
             dict(pkg="./storage", entry="VerifC04", bounds="ops=3,metashapes=2,kinds=6,cfg=1,ids=2,maxlevel=0", reach=["end"]),
@@ -212,6 +215,8 @@ PROPS["C09"] = dict(
     runs={
         "quick": [
             dict(pkg="./storage", entry="VerifC09", bounds="maxp=2,race=1", reach=["searched", "end"]),
+            # a result stream that breaks after its first item with a gRPC status error (Unavailable / Canceled / DeadlineExceeded)
+            dict(pkg="./storage", entry="VerifC09", bounds="maxp=2,items=1,maxk=2,failmodes=4", reach=["searched", "end"]),
             dict(pkg="./storage", entry="VerifC09", bounds="minp=3,maxp=3,nodes=3,spread=1,items=2,mink=2,maxk=2,failmodes=1,race=1", reach=["searched", "end"]),
             dict(pkg="./storage", entry="VerifC09Cluster", bounds="maxp=2,items=1,maxk=2,race=1", reach=["searched", "end"]),
             dict(pkg="./storage", entry="VerifC09Cluster", bounds="maxp=1,items=2,maxk=3,race=1", reach=["searched", "end"]),
@@ -221,6 +226,7 @@ PROPS["C09"] = dict(
         "thorough": [
             dict(pkg="./storage", entry="VerifC09", bounds="maxp=2,preempt=1,race=1", reach=["searched", "end"]),
             dict(pkg="./storage", entry="VerifC09", bounds="maxp=3,items=1,maxk=2,failmodes=2,race=1", reach=["searched", "end"]),
+            dict(pkg="./storage", entry="VerifC09", bounds="maxp=2,items=2,maxk=2,failmodes=4", max_seconds=3000, reach=["searched", "end"]),
             dict(pkg="./storage", entry="VerifC09", bounds="minp=3,maxp=3,nodes=3,spread=1,items=2,maxk=2,failmodes=1,race=1", max_seconds=3000, reach=["searched", "end"]),
             dict(pkg="./storage", entry="VerifC09Cluster", bounds="maxp=2,items=2,maxk=2,stale=0,race=1", max_seconds=3000, reach=["searched", "end"]),
             dict(pkg="./storage", entry="VerifC09Cluster", bounds="maxp=2,items=2,maxk=3,race=1", max_seconds=3000, reach=["searched", "end"]),
@@ -241,9 +247,12 @@ PROPS["C17"] = dict(
         "quick": [dict(pkg="./storage", entry="VerifC17", bounds="maxp=3,placements=4,gone=0,race=1", reach=["sized", "end"]),
                   dict(pkg="./storage", entry="VerifC17", bounds="maxp=2,placements=4,gone=1,race=1", reach=["sized", "end"]),
                   # failing lookups that return gRPC status errors (Canceled, Unavailable, DeadlineExceeded) instead of a plain error
-                  dict(pkg="./storage", entry="VerifC17", bounds="maxp=2,placements=4,gone=0,failkinds=4,race=1", reach=["sized", "end"])],
+                  dict(pkg="./storage", entry="VerifC17", bounds="maxp=2,placements=4,gone=0,failkinds=4,race=1", reach=["sized", "end"]),
+                  # the responder side: the real PartitionInfo handler asked about a dataset / partition it does not know must answer with an error, not with a zero
+                  dict(pkg="./services", entry="VerifC12", bounds="rpclo=9,rpchi=9,maxdim=1", reach=["dataset-created", "handler-returned", "end"])],
         "thorough": [dict(pkg="./storage", entry="VerifC17", bounds="maxp=3,placements=4,preempt=2,gone=0,race=1", reach=["sized", "end"]),
-                     dict(pkg="./storage", entry="VerifC17", bounds="maxp=3,placements=4,preempt=1,gone=1,race=1", reach=["sized", "end"])],
+                     dict(pkg="./storage", entry="VerifC17", bounds="maxp=3,placements=4,preempt=1,gone=1,race=1", reach=["sized", "end"]),
+                     dict(pkg="./services", entry="VerifC12", bounds="rpclo=9,rpchi=9,maxdim=2,noreplica=1", reach=["dataset-created", "handler-returned", "end"])],
     },
     outside="more than 3 partitions / 2 remote nodes (2 partitions in the quick run with departed nodes); caller-context cancellation; interleavings finer than synchronisation points",
     assumptions=COMMON_ASSUME + ["data races: vector-clock happens-before detection (verifrt.RaceDetect) on every explored schedule; the harness' own recording objects are guarded by verifrt.HarnessLock","remote data-manager services are harness implementations of pb.DataManagerClient",
@@ -387,7 +396,8 @@ PROPS["C14"] = dict(
             dict(pkg="./storage", entry="VerifC14", bounds="ops=4,datasets=2", reach=["end"]),
             dict(pkg="./storage", entry="VerifC14", bounds="ops=3,datasets=3,det=0", reach=["end"]),
             dict(pkg=".", entry="VerifC14Restart", bounds="preempt=0", no_native=True, reach=["restarted", "end"]),
-            dict(pkg=".", entry="VerifC14Restart", bounds="preempt=1,det=0,maxcreates=1", max_seconds=3000, no_native=True, reach=["restarted", "end"]),
+            # (preempt=1,det=0,maxcreates=1 with deletes and snapshots did not finish in 3000 s: 1 002 057 paths, no violation; not registered)
+            dict(pkg=".", entry="VerifC14Restart", bounds="preempt=1,det=0,maxcreates=1,nodelete=1,nosnap=1", no_native=True, reach=["restarted", "end"]),
             dict(pkg=".", entry="VerifC14Cluster", bounds="members=3", no_native=True, max_seconds=3000, reach=["settled", "restarted", "partition-with-two-replicas", "end"]),
             dict(pkg="./storage", entry="VerifC14", bounds="ops=4,datasets=1,replicas=3", reach=["end"]),
             dict(pkg=".", entry="VerifC14Raft", bounds="members=2,maxp=2", unwind=4000, no_native=True, max_seconds=5400, reach=["settled", "restarted", "end"]),
@@ -421,6 +431,9 @@ PROPS["C03"] = dict(
             dict(pkg="./storage", entry="VerifC03Cluster", bounds="ops=2,ids=1,crashes=1,maxflush=6,compact=1", unwind=4000, no_native=True, reach=["written", "restarted", "end"]),
             # scripted history insert a, insert b, remove a: a replica that misses the removal is caught up by a non-empty snapshot
             dict(pkg="./storage", entry="VerifC03Cluster", bounds="ops=3,ids=2,script=1,crashes=1,maxflush=8,compact=1", unwind=4000, no_native=True, reach=["written", "restarted", "end"]),
+            # a whole real Server (catalogue group + partition group over the real etcd/raft, one store) killed at any durable write
+            # while items are inserted / removed, restarted on the same directory: exactly the acknowledged items
+            dict(pkg=".", entry="VerifC14Crash", bounds="members=1,creates=1,deletes=0,items=3,maxflush=34,compactitems=1", unwind=4000, no_native=True, reach=["written", "restarted", "items-checked", "end"]),
         ],
         "thorough": [
             dict(pkg="./storage/raft", entry="VerifC03", bounds="readys=1,maxmessages=1,msgtypes=2", reach=["readys-handled", "end"]),
@@ -432,6 +445,7 @@ PROPS["C03"] = dict(
             dict(pkg="./storage", entry="VerifC03Cluster", bounds="ops=2,ids=2,crashes=1,maxflush=10,compact=1", unwind=4000, no_native=True, max_seconds=5400, reach=["written", "restarted", "end"]),
             dict(pkg="./storage", entry="VerifC03Cluster", bounds="ops=2,ids=2,faults=1", unwind=4000, no_native=True, max_seconds=5400, reach=["written", "end"]),
             dict(pkg="./storage", entry="VerifC03Cluster", bounds="ops=3,ids=1,crashes=1,maxflush=8", unwind=4000, no_native=True, max_seconds=5400, reach=["written", "restarted", "end"]),
+            dict(pkg=".", entry="VerifC14Crash", bounds="members=1,creates=2,deletes=1,items=4,maxflush=48,compactitems=1", unwind=4000, no_native=True, max_seconds=5400, reach=["written", "restarted", "items-checked", "end"]),
         ],
     },
     outside="more than 3 replicas / 3 writes; more than one crashed replica (a minority of 3), crash instants other than the durable-write boundaries of the crashed replica's store; one partition, one message fault; batch writes in the cluster harness; goroutine schedules other than the deterministic one between harness-driven ticks; Badger's own durability (the API-level model makes a flushed batch durable atomically); more than 2 Readys in the Ready-shape harness",
@@ -528,6 +542,8 @@ PROPS["C13"] = dict(
             # one writer removing, one reader that is told "not found" and then searches
             dict(pkg="./index", entry="VerifC13", bounds="cfg=0,preempt=2,init=2,ids=2,maxlevel=1,writers=1,minkind=1,kinds=2,minread=2,readkinds=3", reach=["joined", "end"]),
             dict(pkg="./index", entry="VerifC13", bounds="cfg=0,preempt=2,init=2,ids=3,maxlevel=1,kinds=2,race=1", known_no_replay=True, vio_grace=0, reach=["joined", "end"]),
+            # one writer replacing an item (Remove + Insert of the same id, as the partition's update does) while a reader searches
+            dict(pkg="./index", entry="VerifC13Update", bounds="preempt=2,init=4,mininit=4,maxlevel=0,mink=4,queries=2", reach=["joined", "end"]),
             # two concurrent removes with a third live item (the known remove||remove finding shows only then since fix 56b097d)
             dict(pkg="./index", entry="VerifC13", bounds="cfg=0,preempt=2,init=3,ids=3,maxlevel=0,minkind=1,kinds=2", known_no_replay=True, vio_grace=0, reach=["joined", "end"]),
         ],
@@ -540,6 +556,8 @@ PROPS["C13"] = dict(
             dict(pkg="./index", entry="VerifC13", bounds="cfg=4,preempt=2,init=3,ids=3,maxlevel=1,writers=1,minkind=1,kinds=2,minread=2,readkinds=3", max_seconds=3000, reach=["joined", "end"]),
             dict(pkg="./index", entry="VerifC13", bounds="cfg=0,preempt=2,init=2,ids=3,maxlevel=1,kinds=2,race=1", known_no_replay=True, vio_grace=0, max_seconds=3000, reach=["joined", "end"]),
             dict(pkg="./index", entry="VerifC13", bounds="cfg=0,preempt=2,init=3,ids=3,maxlevel=1,minkind=1,kinds=2", known_no_replay=True, vio_grace=0, max_seconds=3000, reach=["joined", "end"]),
+            dict(pkg="./index", entry="VerifC13Update", bounds="preempt=2,init=3", max_seconds=3000, reach=["joined", "end"]),
+            dict(pkg="./index", entry="VerifC13Update", bounds="preempt=2,init=4,mininit=4,maxlevel=1,mink=3,queries=2", max_seconds=3000, reach=["joined", "end"]),
         ],
     },
     outside="weak-memory effects beyond the happens-before criterion; races between operation pairs/ids/levels outside the bound; races the over-approximated happens-before of the channel and rwmutex models orders; more than 3 goroutines; more than one operation per goroutine; vectors are fixed 1-D points; timing/linearization points of searches beyond 'present initially or inserted concurrently'",
